@@ -42,6 +42,9 @@ type faultCase struct {
 	// the dependent fetch run with a null required field while a transport failure skips it, so
 	// the fault-kind independence relation is not applied there.
 	Requires bool `json:"requires,omitempty"`
+	// Validate builds the engine with the "validate required external fields" switches on
+	// (planner and resolver); the partial-null-error kind is only injected there.
+	Validate bool `json:"validate_requires,omitempty"`
 }
 
 // failure kinds named by the property statement (an error must be reported) …
@@ -66,13 +69,13 @@ func allowFromEnv() map[string]bool {
 	return m
 }
 
-func genCase(t *rapid.T, requires bool) faultCase {
+func genCase(t *rapid.T, requires, noChain bool) faultCase {
 	// a fetch that serves two places with different producers (merged by fetch de-duplication)
 	// is skipped as a whole when one producer fails: finding C07-merged-fetch-skipped-as-a-whole;
 	// the layouts and operations that lead to such fetches are kept out by construction
 	multi := allowFromEnv()["multi-producer-fetch"]
 	l := fedgen.Gen(t, fedgen.Options{Allow: allowFromEnv(), NoRequires: !allowFromEnv()["requires"] && !requires,
-		Exclude: map[string]bool{"split-iface-composite": !multi, "provides-on-iface-field": !multi}})
+		Exclude: map[string]bool{"split-iface-composite": !multi, "provides-on-iface-field": !multi, "requires-chain": noChain}})
 	super, err := sim.LoadSuper(l.Super)
 	if err != nil {
 		t.Fatalf("generator produced an invalid supergraph: %v", err)
@@ -83,7 +86,7 @@ func genCase(t *rapid.T, requires bool) faultCase {
 
 var faultPart = pbt.Part[faultCase]{Name: "fault-isolation-random", Quick: 7000, Thorough: 140000, Check: checkFault,
 	Gen: func(t *rapid.T) faultCase {
-		c := genCase(t, false)
+		c := genCase(t, false, false)
 		n := rapid.IntRange(1, 3).Draw(t, "nfaults")
 		kinds := append(append(append(append([]string{}, failKinds...), entityKinds...), softKinds...), nonFaults...)
 		for i := 0; i < n; i++ {
@@ -99,18 +102,27 @@ var faultPart = pbt.Part[faultCase]{Name: "fault-isolation-random", Quick: 7000,
 // and that skip has to carry through every later hop of the chain.
 var requiresPart = pbt.Part[faultCase]{Name: "fault-isolation-requires-transport", Quick: 3000, Thorough: 60000, Check: checkFault,
 	Gen: func(t *rapid.T) faultCase {
-		c := genCase(t, true)
+		// with the validation switches on, the second hop of a @requires chain is still sent with
+		// a null required field (its own input was never fetched): same family as the recorded
+		// finding C07-requires-fetch-sent-with-null-required-field; chains only without Validate
+		validate := rapid.Bool().Draw(t, "validate")
+		c := genCase(t, true, validate && !allowFromEnv()["requires-chain-validated"])
 		c.Requires = true
+		c.Validate = validate
+		kinds := []string{"transport", "transport", "transport", "gzip-ok"}
+		if c.Validate {
+			kinds = []string{"transport", "partial-null-error", "partial-null-error", "gzip-ok"}
+		}
 		n := rapid.IntRange(1, 2).Draw(t, "nfaults")
 		for i := 0; i < n; i++ {
-			c.Faults = append(c.Faults, Fault{Req: rapid.IntRange(0, 11).Draw(t, "req"), Kind: rapid.SampledFrom([]string{"transport", "transport", "transport", "gzip-ok"}).Draw(t, "kind")})
+			c.Faults = append(c.Faults, Fault{Req: rapid.IntRange(0, 11).Draw(t, "req"), Kind: rapid.SampledFrom(kinds).Draw(t, "kind")})
 		}
 		return c
 	}}
 
 var enumPart = pbt.Part[faultCase]{Name: "fault-isolation-enumeration", Quick: 700, Thorough: 14000, Check: checkFault,
 	Gen: func(t *rapid.T) faultCase {
-		c := genCase(t, false)
+		c := genCase(t, false, false)
 		c.Enum = true
 		return c
 	}}
@@ -170,6 +182,38 @@ func respond(kind string, r *sim.Request, answer []byte) *sim.Response {
 		// the same failure as real servers spell it: several errors with locations (graphql-java
 		// reports an unknown location as -1/-1; others send 0, floats or strings), paths and extensions
 		return &sim.Response{Status: 200, Body: []byte(`{"errors":[{"message":"injected: subgraph failed","locations":[{"line":-1,"column":-1}],"path":["_entities",0,"x"],"extensions":{"code":"INTERNAL_SERVER_ERROR","n":1.5,"nested":{"a":[1,null]}}},{"message":"second","locations":[{"line":0,"column":0},{"line":2.0,"column":"7"}],"path":null,"extensions":null},{"message":"third","locations":[]}],"data":null}`)}
+	case "partial-null-error":
+		// a partial failure: one field of one entity is null and an error points at it (what a
+		// subgraph sends when a single resolver fails); only used with Validate
+		v, err := ref.Decode(answer)
+		if err != nil {
+			return nil
+		}
+		m, _ := v.(map[string]any)
+		d, _ := m["data"].(map[string]any)
+		ents, _ := d["_entities"].([]any)
+		// the first entity with a non-null field; else the first field of the first entity
+		// (a resolver error on a field that would have been null anyway)
+		for pass := 0; pass < 2; pass++ {
+			for i, e := range ents {
+				em, _ := e.(map[string]any)
+				var keys []string
+				for k, x := range em {
+					if k != "__typename" && (x != nil || pass == 1) {
+						keys = append(keys, k)
+					}
+				}
+				sort.Strings(keys)
+				if len(keys) == 0 {
+					continue
+				}
+				em[keys[0]] = nil
+				m["errors"] = []any{map[string]any{"message": "injected: resolver failed", "path": []any{"_entities", i, keys[0]}}}
+				return &sim.Response{Status: 200, Body: []byte(ref.JSON(m))}
+			}
+		}
+		// nothing but __typename selected: the request fails as a whole
+		return &sim.Response{Status: 200, Body: []byte(`{"errors":[{"message":"injected: subgraph failed"}]}`)}
 	case "body-read-error":
 		half := answer[:len(answer)/2]
 		return &sim.Response{Status: 200, BodyReader: &errReader{data: half}}
@@ -208,6 +252,9 @@ func respond(kind string, r *sim.Request, answer []byte) *sim.Response {
 }
 
 func kindApplies(kind string, r *sim.Request) bool {
+	if kind == "partial-null-error" {
+		return isEntityRequest(r) && entityCount(r) > 0
+	}
 	for _, k := range entityKinds {
 		if k == kind {
 			// multi-entity documents (aliased _entities) are not produced by the default engine
@@ -415,7 +462,7 @@ func delivered(w *sim.World, r *sim.Request, only map[string]bool) (map[string]b
 }
 
 func checkFault(c faultCase, o *pbt.Rec) pbt.Verdict {
-	gw, err := kit.New(c.Layout, c.Seed, kit.EngineOptions{})
+	gw, err := kit.New(c.Layout, c.Seed, kit.EngineOptions{ValidateRequires: c.Validate})
 	if err != nil {
 		return pbt.Bad("engine construction failed: %v", err)
 	}
@@ -682,6 +729,11 @@ func checkOneFaultSet(gw *kit.Gateway, c faultCase, base *runResult, byKey map[s
 	// fault-free requests no longer (completely) sent
 	missing := map[string]bool{}
 	ambiguous := false
+	for _, kind := range fs {
+		if kind == "partial-null-error" {
+			ambiguous = true // one (entity, key) pair of the request fails, not the request
+		}
+	}
 	deliveredBy := map[string]int{}
 	for k, r := range byKey {
 		d, ok := delivered(gw.World, r, nil)
